@@ -8,9 +8,25 @@ from tools.vlib import *
 PID = "C08"
 READY = False
 MANIFEST = {
-    "level_text": "",
-    "level_note": "",
-    "technique": "",
+    "level_text": "Lean 4 theorems, for every byte string and every way of cutting it into update() calls (no bound on length or "
+                  "number of pieces): the transcribed streaming hasher (state words, 64-byte buffer, 64-bit bit counter, memcpy-chunked "
+                  "update, finalize with its one-or-two-block padding, transform) returns the SHA-256 digest defined by a specification "
+                  "written from FIPS 180-4 (pad, parse, fold); for every key of any length and every message the transcribed "
+                  "HmacSha256::compute equals an RFC 2104 specification, and verify returns true exactly for the 32-byte correct tag. "
+                  "The specification's K[64] and H0[8] are proved to be the 32-bit fractions of the cube/square roots of the first "
+                  "64/8 primes (integer inequalities), its padding length to be the smallest solution FIPS asks for, and it reproduces the "
+                  "FIPS example digests and RFC 4231 cases 1-4,6,7 by kernel evaluation. The model is tied to the code by tables, rotation "
+                  "amounts, sizes and pad bytes regenerated from Sha256.cpp/HmacSha256.cpp on every run (proved equal to the "
+                  "specification's) and by a differential run of the real Sha256/HmacSha256 (ASan/UBSan, exact-size buffers) against "
+                  "the compiled Lean model, with the Lean specification judging every digest, tag and verdict the implementation returns.",
+    "level_note": "Trusted: Lean kernel; my reading of FIPS 180-4 / RFC 2104 into Spec/Sha256.lean and Spec/Hmac.lean (cross-checked by the "
+                  "proved example vectors and constant characterisations); hand transcription of update/finalize/transform/compute/verify "
+                  "into Lean (checked only by the differential run; std::span/memcpy/std::fill/std::copy semantics assumed); regex "
+                  "extraction of constants. FIPS defines SHA-256 for fewer than 2^64 bits; beyond that the theorem compares with a length "
+                  "field reduced mod 2^64. Reuse of a Sha256 object after finalize() (state_ is not reset) is outside the property and "
+                  "not modelled. Constant-time behaviour of verify and cryptographic strength are not claimed.",
+    "technique": "Lean 4 functional-correctness proof (loop invariant over update calls, refinement to a FIPS 180-4 / RFC 2104 specification, "
+                 "kernel-evaluated standard vectors) + regenerated constants + model/implementation differential correspondence with Lean monitor",
 }
 
 SHA_CPP = "src/crypto/Sha256.cpp"
@@ -223,7 +239,8 @@ def case_verify(rng, thorough: bool) -> Case:
     data = rbytes(rng, rng.choice([0, 1, 55, 56, 64, rng.randint(0, 200)]))
     tag = pyhmac.new(key, data, hashlib.sha256).digest()
     ops = [f"hmac {hx(key)} {hx(data)}", f"verify {hx(key)} {hx(data)} {hx(tag)}"]
-    for n in range(0, 41):                               # every tag length 0..40
+    for n in list(range(33, 41)) + list(range(0, 33)):   # every tag length 0..40 (long ones first: a short one may crash a
+                                                         # verify that lost its length check, which ends the case)
         if n <= 32:
             t = tag[:n]
         else:
@@ -317,7 +334,7 @@ def post(ctx, results):
 def spec() -> Spec:
     return Spec(
         pid=PID,
-        proof_modules=["EphVerif.Proofs.C08"],
+        proof_modules=["EphVerif.Proofs.C08", "EphVerif.Proofs.C08Vectors", "EphVerif.Proofs.C08VectorsHmac", "EphVerif.Proofs.C08VectorsHmacLong"],
         driver="drv_c08",
         harness=harness,
         generate=generate,
@@ -329,9 +346,17 @@ def spec() -> Spec:
         divergence_is_violation=True,
         per_case_timeout=60.0,
         batch=4000,
-        rule="",
-        trusted_base=[],
-        assumptions=[],
+        rule="sha: every message length 0..300 (random content) fed unsplit, at 1, 2-3 and 4-9 random cut points (empty pieces "
+             "included), at every 64-byte boundary, at a shifted 64-stride and byte by byte; every single cut point of messages of "
+             "length 55/56/57/63/64/65/119/120/121/127/128/129; 64 KiB..1 MiB pattern messages with random cuts; hmac: every key "
+             "length 0..200 (incl. 63/64/65) x three data lengths, longer keys at random; verify: the correct tag, its prefixes and "
+             "extensions at every length 0..40, single-bit flips, a random tag, the tag of another key; FIPS/RFC 4231 vectors as ops. "
+             "distinct = sha256 of the op list; non-trivial = the implementation answered every op with a well-formed digest/tag/bool "
+             "(verify cases: at least one accept and one refusal)",
+        trusted_base=["reading of FIPS 180-4 and RFC 2104 into Spec/Sha256.lean and Spec/Hmac.lean (supported by proved example vectors and constant characterisations)",
+                      "std::span / memcpy / std::fill / std::copy semantics; regex extraction of the tables and amounts"],
+        assumptions=["a Sha256 object is not reused after finalize() (state_ is not reset there; no caller does)",
+                     "messages shorter than 2^61 bytes for the right-hand side to be the FIPS-defined value (the model/spec equality itself has no bound)"],
     )
 
 
